@@ -172,5 +172,10 @@ cz = ma.array(np.array([3.0, 1.0, 2.0]))
 cm = ma.array(np.array([3.0, 1.0, 2.0]), mask=[False, False, False])
 check("A31 compressed() of an array without a mask array is a view of its data (an in-place sort reorders the source); with a mask array it is a copy",
       np.shares_memory(cz.compressed(), cz.data) and not np.shares_memory(cm.compressed(), cm.data))
+fo = np.asfortranarray(np.arange(6.0).reshape(2, 3))
+co = np.arange(6.0).reshape(2, 3)
+check("A32 ravel(order='A'/'K') follows the memory layout while reshape(shape, order='A') of the 1-D result writes row-major: the pair is the identity for C-ordered grids only; order='C' (the default) on both sides is the identity for every layout",
+      not np.array_equal(fo.ravel(order="A").reshape(fo.shape, order="A"), fo) and np.array_equal(co.ravel(order="A").reshape(co.shape, order="A"), co)
+      and np.array_equal(fo.ravel().reshape(fo.shape), fo) and np.array_equal(fo.T.ravel().reshape(fo.T.shape), fo.T))
 print("%d axiom check(s) failed" % len(FAIL))
 sys.exit(1 if FAIL else 0)
